@@ -98,7 +98,7 @@ open GoSup.CompSeq (Fsm)
 /-- the steps the library itself can take (with some answer of the environment where one is needed: a callback that
 returns, a drain that ends, a probe that gives up) -/
 def progressActs : List Act :=
-  [.runEnter, .runBootBegin (.ok 0) true, .runProbeFail false, .runToRunning, .runSelStop, .runToStopping,
+  [.runEnter, .runBootBegin (.ok 0) true, .runBootFail, .runProbeFail false, .runToRunning, .runSelStop, .runToStopping,
    .runStopServer true, .runFinish, .rlConfig (.ok 0) true, .rlAfterCb, .rlStopOld true, .rlBootBegin true, .rlProbeFail false]
 
 /-- **`Stop()` is never stuck** (C13, C14: "Run()/Stop() still terminate") — in every interleaving: in every reachable
@@ -131,6 +131,7 @@ theorem c13_stop_never_stuck {s : St} (h : Reach lts init s) (hstop : s.stopReq 
     refine ⟨.runBootBegin (.ok 0) true, by simp [progressActs], ?_⟩
     simp only [step, hr, hm]
     cases s.cfg <;> simp
+  | bootFailed => exact ⟨.runBootFail, by simp [progressActs], by simp [step, hr]⟩
   | probing => exact ⟨.runProbeFail false, by simp [progressActs], by simp [step, hr]⟩
   | booted =>
     refine ⟨.runToRunning, by simp [progressActs], ?_⟩
@@ -178,13 +179,13 @@ open GoSup.CompSeq (Fsm)
 
 /-- the actions of the library's own threads (`Run`, `Reload`), whatever the environment answers -/
 def isLib : Act → Bool
-  | .runEnter | .runBootBegin _ _ | .runProbeOk | .runProbeFail _ | .runToRunning | .runSelCtx | .runSelStop | .runSelErr
+  | .runEnter | .runBootBegin _ _ | .runBootFail | .runProbeOk | .runProbeFail _ | .runToRunning | .runSelCtx | .runSelStop | .runSelErr
   | .runToStopping | .runStopServer _ | .runFinish
   | .rlEnter | .rlConfig _ _ | .rlAfterCb | .rlStopOld _ | .rlBootBegin _ | .rlProbeOk | .rlProbeFail _ => true
   | _ => false
 
 def runRank : RunPc → Nat
-  | .idle => 9 | .entered => 8 | .probing => 7 | .booted => 6 | .select => 5 | .afterSelect => 4 | .toStop => 3
+  | .idle => 9 | .entered => 8 | .bootFailed => 1 | .probing => 7 | .booted => 6 | .select => 5 | .afterSelect => 4 | .toStop => 3
   | .stopped _ => 2 | .returned _ => 0
 
 def rlRank : RlPc → Nat
@@ -217,7 +218,7 @@ open GoSup.CompSeq (Fsm)
 theorem progressActs_lib : ∀ a ∈ progressActs, isLib a = true := by
   intro a ha
   simp only [progressActs, List.mem_cons, List.not_mem_nil, or_false] at ha
-  rcases ha with h | h | h | h | h | h | h | h | h | h | h | h | h <;> subst h <;> rfl
+  rcases ha with h | h | h | h | h | h | h | h | h | h | h | h | h | h <;> subst h <;> rfl
 
 theorem lib_keeps_stopReq (s : St) (a : Act) (s' : St) (hl : isLib a = true) (hs : step s a = some s') (h : s.stopReq = true) :
     s'.stopReq = true := by
